@@ -5,9 +5,9 @@ use crate::output::{
     gen_outputs, Html5Elements, Html5Serializer, Output, OutputToken, TokenSerializeParameters,
     XmlSerializer,
 };
+use crate::output::FullnameSerializer;
 use crate::output::{NoopNormalizer, Normalizer};
 use crate::output::{Pretty, PrettyOutputToken};
-use crate::xmlname::NameStrInfo;
 use crate::{output, NameId, Value};
 
 use crate::xotdata::{Node, Xot};
@@ -298,10 +298,12 @@ assert_eq!(s, "<doc>\u{1E0D}\u{0307}</doc>");
                 Value::Element(_) => node,
                 _ => return Err(Error::NotElement(node)),
             };
-            // now take the full name of the element; we can unwrap as we
-            // know it's an element now
-            let name = self.node_name_ref(node)?.unwrap();
-            let name = name.full_name();
+            // now take the full name of the element, spelled exactly as the
+            // serializer is going to spell it in the start tag
+            let mut fullname_serializer =
+                FullnameSerializer::new(self, self.namespaces_in_scope(node).collect());
+            fullname_serializer.push(self.namespace_declarations(node));
+            let name = fullname_serializer.element_fullname(self.get_element_name(node))?;
             doctype.serialize(name.as_ref(), w)?;
         }
         let outputs = gen_outputs(self, node);
